@@ -5,7 +5,10 @@ use error_set::ErrContext;
 use iggy::error::IggyError;
 use std::path::Path;
 use std::sync::atomic::Ordering;
+#[cfg(not(kani))]
 use tokio::fs::create_dir_all;
+#[cfg(kani)]
+use iggy::verif_model::fs::create_dir_all;
 use tracing::error;
 
 impl Partition {
